@@ -93,9 +93,14 @@ class _Handler(BaseHTTPRequestHandler):
     do_PUT = _handle
 
 
+class _Server(ThreadingHTTPServer):
+    def handle_error(self, request, client_address):
+        pass     # clients that exit mid-reply (fault runs) are expected
+
+
 class FakeAI:
     def __init__(self):
-        self.httpd = ThreadingHTTPServer(("127.0.0.1", 0), _Handler)
+        self.httpd = _Server(("127.0.0.1", 0), _Handler)
         self.httpd.daemon_threads = True
         self.httpd.requests = []
         self.httpd.lock = threading.Lock()
